@@ -220,6 +220,29 @@ func TestC11(t *testing.T) {
 			if d := sameSpec(back, s.ID, s.KEM, s.Pub, s.Suites, s.Name); d != "" {
 				ev.Violation(t, "C11", map[string]any{"bytes": hx(b)}, "Spec() does not return the encoded fields: %s", d)
 			}
+			// the caller may edit the returned spec (its fields may well be views of the config
+			// it was parsed from, so that config is not looked at again): an untouched copy of the
+			// same bytes still parses to what the bytes say - parses do not share state
+			pristine := append(ech.Config{}, b...)
+			for j := range back.PublicName {
+				back.PublicName[j] ^= 0x20
+			}
+			for j := range back.PublicKey {
+				back.PublicKey[j] ^= 0xff
+			}
+			for j := range back.CipherSuites {
+				back.CipherSuites[j].AEAD ^= 0x7
+			}
+			for _, again := range []ech.Config{pristine, append(ech.Config{}, pristine...)} {
+				var back2 ech.ConfigSpec
+				if e := guard(func() error { var e error; back2, e = again.Spec(); return e }); e != nil {
+					ev.Violation(t, "C11", map[string]any{"bytes": hx(pristine)}, "Spec() of a copy of the same bytes failed: %v", e)
+				}
+				if d := sameSpec(back2, s.ID, s.KEM, s.Pub, s.Suites, s.Name); d != "" {
+					ev.Violation(t, "C11", map[string]any{"bytes": hx(pristine)}, "Spec() of a copy of the same bytes, after the caller edited the result of an earlier parse: %s", d)
+				}
+			}
+			b = pristine
 			cfgs = append(cfgs, b)
 			switch len(s.Name) {
 			case 1:
